@@ -1,4 +1,90 @@
-(* Props/C02.v — property C02 (placeholder while the theorems are being added). *)
-From Eino Require Import Base.Util Model.Graph Proofs.Graph.
+(* Props/C02.v — property C02: all-predecessor (DAG) graphs and Workflows — every node runs at most once,
+   exactly when triggered; skip propagation; input = merge of the routed data predecessors.
+   Only statements: each theorem is proved in Proofs/Dag*.v about the definitions of Model/Graph.v that
+   Corr/C02.v evaluates (dag_report_values / dag_report_deps / dag_report_skip / dag_get, run_flat / run). *)
+From Eino Require Import Base.Util Model.Graph Proofs.DagChan Proofs.DagInv Proofs.DagLoop Proofs.DagExamples.
 Open Scope N_scope.
-Example c02_placeholder : kEND = 1. Proof. reflexivity. Qed.
+
+(* ================= channel level (compose/dag.go) ================= *)
+
+(* get: ready <-> not skipped /\ no control predecessor waiting /\ every data predecessor reported (a skip
+   report sets the data flag too). Ready: the merge of the stored values (or the merge error) and the reset
+   channel; not ready: nothing, channel unchanged. *)
+Theorem dag_get_ready_iff : forall V (ops : vops V) (c : chan V),
+  chan_ok V c ->
+  (ready_cond V c <-> dag_get V ops c = (do v <- get_merge V ops (c_vals V c); Ok (Some v, dag_reset V c)))
+  /\ (~ ready_cond V c <-> dag_get V ops c = Ok (None, c)).
+Proof. exact DagChan.dag_get_ready_iff. Qed.
+Print Assumptions dag_get_ready_iff.
+
+(* a successful get resets the channel: every control predecessor waits again, every data flag is cleared,
+   no value is kept; key sets and the skipped flag are unchanged *)
+Theorem dag_get_resets : forall V (ops : vops V) (c : chan V) v c',
+  dag_get V ops c = Ok (Some v, c') ->
+  (forall p d, ctrl_st V c' p = Some d -> d = Waiting)
+  /\ (forall p b, data_st V c' p = Some b -> b = false)
+  /\ c_vals V c' = []
+  /\ c_skipped V c' = c_skipped V c
+  /\ akeys (c_ctrl V c') = akeys (c_ctrl V c) /\ akeys (c_data V c') = akeys (c_data V c).
+Proof. exact DagChan.dag_get_resets. Qed.
+Print Assumptions dag_get_resets.
+
+(* ... and therefore is not ready again until every predecessor reports again *)
+Theorem dag_get_not_ready_again : forall V (c : chan V),
+  chan_ok V c -> (c_ctrl V c <> [] \/ c_data V c <> []) -> dag_ready V (dag_reset V c) = false.
+Proof. exact DagChan.dag_reset_not_ready. Qed.
+Print Assumptions dag_get_not_ready_again.
+
+(* reportSkip: returns true, and marks the channel skipped, iff EVERY control predecessor is now skipped;
+   exactly the named predecessors change (control: skipped, data: reported), values are kept *)
+Theorem dag_skip_iff_all_skipped : forall V (c : chan V) ks c' b,
+  chan_ok V c ->
+  dag_report_skip V c ks = (c', b) ->
+  c_skipped V c' = b
+  /\ (b = true <-> forall p d, ctrl_st V c' p = Some d -> d = Skipped)
+  /\ (forall p, ctrl_st V c' p = if memb p ks then option_map (fun _ => Skipped) (ctrl_st V c p) else ctrl_st V c p)
+  /\ (forall p, data_st V c' p = if memb p ks then option_map (fun _ => true) (data_st V c p) else data_st V c p)
+  /\ c_vals V c' = c_vals V c.
+Proof. exact DagChan.dag_skip_iff_all_skipped. Qed.
+Print Assumptions dag_skip_iff_all_skipped.
+
+Example chan_ok_nonvacuous : chan_ok value (chan_init value ex_dag 5) /\ ready_cond value
+  (dag_report_deps value (dag_report_values value (chan_init value ex_dag 5) [(3, VNil); (4, VNil)]) [3; 4]).
+Proof.
+  split; [apply chan_init_ok|]. apply dag_ready_iff; [|reflexivity].
+  apply dag_report_deps_ok, dag_report_values_ok, chan_init_ok.
+Qed.
+
+(* ================= graph level ================= *)
+
+(* At most once. For EVERY graph in all-predecessor mode (no well-formedness or acyclicity assumption),
+   every input, every behaviour of the lambdas (exec), every branch table, every behaviour of nested graphs,
+   batch and eager mode and every completion schedule (sched), at every nesting depth: the node paths in
+   the execution log of that graph instance are pairwise distinct. *)
+Theorem dag_at_most_once : forall V St (ops : vops V) exec sched F fuel p g x s,
+  g_mode g = Dag ->
+  NoDup (executed_paths p (outcome_log V (fst (run_nest V St ops exec sched fuel F p g x s)))).
+Proof. exact dag_at_most_once_nest. Qed.
+Print Assumptions dag_at_most_once.
+
+Theorem dag_at_most_once_root : forall V St (ops : vops V) exec sched g F x s,
+  g_mode g = Dag ->
+  NoDup (executed_paths [] (outcome_log V (fst (run V St ops exec sched (g :: F) x s)))).
+Proof. exact dag_at_most_once_run. Qed.
+Print Assumptions dag_at_most_once_root.
+
+(* the same with the nested graphs abstracted to an arbitrary oracle that logs under its own path *)
+Theorem dag_at_most_once_any_sub : forall V St (ops : vops V) g exec sub sched p x s,
+  g_mode g = Dag ->
+  (forall i k v s', Forall (fun e : logentry V => fst e <> p) (outcome_log V (fst (sub i (p ++ [k]) v s')))) ->
+  NoDup (executed_paths p (outcome_log V (fst (run_flat V St ops exec sub sched p g x s)))).
+Proof. exact dag_at_most_once_flat. Qed.
+Print Assumptions dag_at_most_once_any_sub.
+
+(* non-vacuity: a DAG whose run executes five of its six nodes (one branch target is skipped, the skip
+   does not reach the join node 5 because its other predecessor ran) *)
+Example at_most_once_nonvacuous :
+  g_mode ex_dag = Dag
+  /\ executed_paths [] (outcome_log value (tree_run [] [ex_dag] ex_input_c)) = [[2]; [4]; [5]; [6]; [7]]
+  /\ executed_paths [] (outcome_log value (tree_run [] [ex_dag] ex_input_b)) = [[2]; [3]; [5]; [7]].
+Proof. vm_compute. auto. Qed.
